@@ -1,5 +1,4 @@
 CONSTANTS
-  MCTrees <- MCTreesAll
   KeepFirstError = TRUE
   RecoverPerStage = TRUE
   FirstErrorWins = TRUE
